@@ -701,6 +701,7 @@ class Explorer:
         self.twin_memo = {}
         self.ok_obs = {}
         self.n_obs = {}
+        self.max_pass = {}
         self.n_hist = 0
         self.sampled = set()
 
@@ -720,6 +721,8 @@ class Explorer:
         if res["own_hits"]:
             ctx.count("histories_with_a_step_served_from_memo")
         ctx.stat(f"rel_diff_real_vs_twin[{fam.name}]", res["rel"])
+        if res["rel"] > self.max_pass.get(fam.name, (1e-13,))[0]:
+            self.max_pass[fam.name] = (res["rel"], {"params": params, "history": list(history)})
         for s in res["steps"]:
             key = (fam.name, s.op)
             good = not (isinstance(s.real, tw.Exc) and isinstance(s.twin, tw.Exc))
@@ -1064,10 +1067,13 @@ def run(ctx):
         spy.uninstall()
         env.close()
     # an operation that raised on BOTH sides every time it was tried was never really compared (harness error?)
+    # (correct_X must raise by construction; linear modes / normal form are undefined for the unstable L4 point pb)
     never_ok = sorted(f"{f}:{o}" for (f, o), good in ex.ok_obs.items() if not good and ex.n_obs[(f, o)] >= 5
-                      and not o.startswith(("pb.linear_modes", "pb.normal_form_transform")))
+                      and not o.endswith("correct_X") and not o.startswith(("pb.linear_modes", "pb.normal_form_transform")))
     if never_ok:
         ctx.mark_inconclusive(f"operations that never returned a value on both sides: {never_ok[:6]}")
+    if ex.max_pass:
+        ctx.note("largest_nonzero_difference_that_passed", {f: {"rel": r, **w} for f, (r, w) in ex.max_pass.items()})
     ctx.note("memo_hits_by_tag", dict(spy.hits.most_common(20)))
     ctx.note("memo_misses_by_tag", dict(spy.misses.most_common(20)))
     ctx.note("twin_factory_calls_by_tag", dict(spy.twin_factory_calls.most_common(20)))
